@@ -51,10 +51,10 @@ func (s *Store[H]) deleteSingle(
 	ctx context.Context,
 	height uint64,
 	onDelete []func(ctx context.Context, height uint64) error,
-) error {
+) (header.Hash, error) {
 	// some of the methods may not handle context cancellation properly
 	if ctx.Err() != nil {
-		return context.Cause(ctx)
+		return nil, context.Cause(ctx)
 	}
 
 	hash, err := s.heightIndex.HashByHeight(ctx, height, false)
@@ -63,31 +63,51 @@ func (s *Store[H]) deleteSingle(
 		h := s.pending.GetByHeight(height)
 		if h.IsZero() {
 			// a dedicated error, so that a handler's own not-found error is never mistaken for it
-			return fmt.Errorf("hash by height %d: %w", height, errMissingHeader)
+			return nil, fmt.Errorf("hash by height %d: %w", height, errMissingHeader)
 		}
 		hash, err = h.Hash(), nil
 	}
 	if err != nil {
-		return fmt.Errorf("hash by height %d: %w", height, err)
+		return nil, fmt.Errorf("hash by height %d: %w", height, err)
 	}
 
 	for _, deleteFn := range onDelete {
 		if err := deleteFn(ctx, height); err != nil {
-			return fmt.Errorf("on delete handler for %d: %w", height, err)
+			return nil, fmt.Errorf("on delete handler for %d: %w", height, err)
 		}
 	}
 
 	if err := s.ds.Delete(ctx, hashKey(hash)); err != nil {
-		return fmt.Errorf("delete hash key (%X): %w", hash, err)
+		return nil, fmt.Errorf("delete hash key (%X): %w", hash, err)
 	}
 	if err := s.ds.Delete(ctx, heightKey(height)); err != nil {
-		return fmt.Errorf("delete height key (%d): %w", height, err)
+		return nil, fmt.Errorf("delete height key (%d): %w", height, err)
 	}
 
+	s.evict(hash, height)
+	s.pending.DeleteRange(height, height+1)
+	return hash, nil
+}
+
+// deletedHeader identifies a header deleted within a write batch.
+type deletedHeader struct {
+	hash   header.Hash
+	height uint64
+}
+
+// evict drops the header from the caches.
+func (s *Store[H]) evict(hash header.Hash, height uint64) {
 	s.cache.Remove(hash.String())
 	s.heightIndex.cache.Remove(height)
-	s.pending.DeleteRange(height, height+1)
-	return nil
+}
+
+// evictAll drops the given headers from the caches once more. It has to run after the write batch
+// holding their deletions is committed: until then the datastore still serves them, so a read racing
+// with the deletion may have cached them again.
+func (s *Store[H]) evictAll(deleted []deletedHeader) {
+	for _, d := range deleted {
+		s.evict(d.hash, d.height)
+	}
 }
 
 // deleteSequential deletes [from:to) header range from the store sequentially
@@ -98,11 +118,13 @@ func (s *Store[H]) deleteSequential(
 ) (highest uint64, missing int, err error) {
 	log.Debugw("starting delete range sequential", "from_height", from, "to_height", to)
 
+	var deleted []deletedHeader
 	ctx, done := s.withWriteBatch(ctx)
 	defer func() {
 		if derr := done(); derr != nil {
 			err = errors.Join(err, fmt.Errorf("committing batch: %w", derr))
 		}
+		s.evictAll(deleted)
 	}()
 	ctx, doneTx := s.withReadTransaction(ctx)
 	defer doneTx()
@@ -112,12 +134,14 @@ func (s *Store[H]) deleteSequential(
 	s.onDeleteMu.Unlock()
 
 	for height := from; height < to; height++ {
-		err := s.deleteSingle(ctx, height, onDelete)
+		hash, err := s.deleteSingle(ctx, height, onDelete)
 		if errors.Is(err, errMissingHeader) {
 			missing++
 			log.Debugw("attempt to delete header that's not found", "height", height)
 		} else if err != nil {
 			return height, missing, err
+		} else {
+			deleted = append(deleted, deletedHeader{hash: hash, height: height})
 		}
 	}
 
@@ -166,18 +190,20 @@ func (s *Store[H]) deleteParallel(ctx context.Context, from, to uint64) (uint64,
 			}
 		}()
 
+		var deleted []deletedHeader
 		workerCtx, done := s.withWriteBatch(ctx)
 		defer func() {
 			if err := done(); err != nil {
 				last.err = errors.Join(last.err, fmt.Errorf("committing delete batch: %w", err))
 			}
+			s.evictAll(deleted)
 		}()
 		workerCtx, doneTx := s.withReadTransaction(workerCtx)
 		defer doneTx()
 
 		for height := range jobCh {
 			last.height = height
-			err := s.deleteSingle(workerCtx, height, onDelete)
+			hash, err := s.deleteSingle(workerCtx, height, onDelete)
 			if errors.Is(err, errMissingHeader) {
 				// not a failure: must not be left behind as the worker's result
 				last.missing++
@@ -188,6 +214,7 @@ func (s *Store[H]) deleteParallel(ctx context.Context, from, to uint64) (uint64,
 			if last.err != nil {
 				break
 			}
+			deleted = append(deleted, deletedHeader{hash: hash, height: height})
 		}
 	}
 
